@@ -144,6 +144,7 @@ Definition t_stream_origin := "viol:stream-empty-origin-any-clash-fails".
 Definition t_stream_sym := "viol:stream-symlink-clash-fails".
 Definition t_alias := "viol:db-entry-aliased-through-symlinked-directory".
 Definition t_thru := "viol:file-unreachable-after-link-replaced".
+Definition t_dup := "viol:db-duplicate-path-records-last-header".
 
 Definition is_dir_kind (k : kind) : bool := kind_eqb k KDir.
 
@@ -258,9 +259,10 @@ Definition EntryTrue (tree : list tnode) (d : dbent) : Prop :=
     (forall sm, d_sum d = Some sm -> t_kind n = TReg \/ t_kind n = TSym -> t_sum n = sm).
 
 (* [b], [pre], [first_mode], [alias] (the entry's file is also shipped under
-   another name that resolves to the same place) and [thru] (a package ships a
-   symbolic link at a prefix of the path, or at the path) only select the tag *)
-Definition check_entry (b : backend) (pre tree : list tnode) (first_mode : path -> option N) (alias thru : path -> bool) (d : dbent) : list string :=
+   another name that resolves to the same place), [thru] (a package ships a
+   symbolic link at a prefix of the path, or at the path) and [dup] (one package
+   ships the path more than once) only select the tag *)
+Definition check_entry (b : backend) (pre tree : list tnode) (first_mode : path -> option N) (alias thru dup : path -> bool) (d : dbent) : list string :=
   match tree_lookup tree (d_path d) with
   | None => [if thru (d_path d) then t_thru else "viol:db-entry-missing-in-tree"]
   | Some n =>
@@ -275,6 +277,9 @@ Definition check_entry (b : backend) (pre tree : list tnode) (first_mode : path 
       then [if is_lazy b then "viol:db-stale-entry-under-symlink" else t_follow_link] else
       tag_if (negb (Bool.eqb (d_dir d) (tkind_eqb (t_kind n) TDir))) "viol:db-entry-kind-differs-from-tree" ++
       (if N.eqb (N.land (t_mode n) 511) (d_perm d) then []
+       else if negb (d_dir d) && dup (d_path d) then [t_dup]
+            (* the writer keeps the LAST header of a path one package ships twice,
+               the tree the first copy when the bytes are the same *)
        else if negb (d_dir d) && alias (d_path d) then [t_alias]
        else if d_dir d && match first_mode (d_path d) with
                           | Some fm => N.eqb fm (N.land (t_mode n) 511) && negb (N.eqb fm (d_perm d))
@@ -296,13 +301,21 @@ Definition check_entry (b : backend) (pre tree : list tnode) (first_mode : path 
        else ["viol:db-owner-mismatch"]) ++
       match d_sum d with
       | Some sm => tag_if ((tkind_eqb (t_kind n) TReg || tkind_eqb (t_kind n) TSym) && negb (N.eqb (t_sum n) sm))
-                     (if alias (d_path d) then t_alias else "viol:db-content-mismatch")
+                     (if dup (d_path d) then t_dup else if alias (d_path d) then t_alias else "viol:db-content-mismatch")
       | None => []
       end
   end.
 
-Definition check_db_entries (b : backend) (pre tree : list tnode) (first_mode : path -> option N) (alias thru : path -> bool) (db : list dbpkg) : list string :=
-  flat_map (fun p => flat_map (check_entry b pre tree first_mode alias thru) (dp_entries p)) db.
+Definition check_db_entries (b : backend) (pre tree : list tnode) (first_mode : path -> option N) (alias thru dup : path -> bool) (db : list dbpkg) : list string :=
+  flat_map (fun p => flat_map (check_entry b pre tree first_mode alias thru dup) (dp_entries p)) db.
+
+(* a stanza lists a file or link at most once *)
+Definition listed_times (dp : dbpkg) (p : path) : nat :=
+  List.length (filter (fun d => path_eqb (d_path d) p && negb (d_dir d)) (dp_entries dp)).
+Definition check_stanza_dups (dup : path -> bool) (db : list dbpkg) : list string :=
+  nodup string_dec (flat_map (fun dp => flat_map (fun d =>
+    if negb (d_dir d) && Nat.ltb 1 (listed_times dp (d_path d))
+    then [if dup (d_path d) then t_dup else "viol:db-path-listed-twice-in-stanza"] else []) (dp_entries dp)) db).
 
 (* ---- validator 3: every packaged regular file is recorded under exactly one
    package, the one whose content is present --------------------------------- *)
